@@ -214,8 +214,18 @@ func flight4Parse(
 	}
 	state.HandshakeRecvSequence = finishedPull.NextSequence
 
-	if _, ok = finishedPull.Messages[handshake.TypeFinished].(*handshake.MessageFinished); !ok {
+	finished, ok := finishedPull.Messages[handshake.TypeFinished].(*handshake.MessageFinished)
+	if !ok {
 		return 0, &alert.Alert{Level: alert.Fatal, Description: alert.InternalError}, nil
+	}
+
+	plainText := cache.PullAndMerge(handshakeRulesThroughClientCertificateVerify(cfg.InitialEpoch)...)
+	expectedVerifyData, err := prf.VerifyDataClient(state.MasterSecret, plainText, state.CipherSuite.HashFunc())
+	if err != nil {
+		return 0, &alert.Alert{Level: alert.Fatal, Description: alert.InternalError}, err
+	}
+	if !bytes.Equal(expectedVerifyData, finished.VerifyData) {
+		return 0, &alert.Alert{Level: alert.Fatal, Description: alert.HandshakeFailure}, dtlserrors.ErrVerifyDataMismatch
 	}
 
 	if state.CipherSuite.AuthenticationType() == ciphersuite.AuthenticationTypeAnonymous {
